@@ -63,7 +63,10 @@ def build(cls, meth, args, subst=None):
     def graph():
         vals = []
         for i, a in enumerate(args):
-            if subst is not None and subst[0] == i:
+            if subst is not None and subst[0] == i and isinstance(subst[1], tuple) and subst[1] and subst[1][0] == 'rates':
+                vals.append([{'a': lambda: ugs.DC.ar(0.25), 'k': lambda: ugs.DC.kr(0.25), 's': lambda: 0.25}[r_]()
+                             for r_ in subst[1][1]])
+            elif subst is not None and subst[0] == i:
                 vals.append(subst[1])
             elif a[0] == 'sig':
                 vals.append(ugs.DC.ar(0.25) if meth == 'ar' else ugs.DC.kr(0.25))
@@ -78,7 +81,7 @@ def build(cls, meth, args, subst=None):
         # a unit that DECLARES no outputs (its class overrides _num_outputs: SendPeakRMS, SendReply, ...) is not a
         # signal; a multi-output unit that ended up without channels is wired like any other value
         outs = [x for x in outs if not (x._num_outputs() == 0 and '_num_outputs' in type(x).__dict__)]
-        for x in outs[:2]:
+        for x in outs[:12]:
             rate = B.rate_of(x)
             if rate == 'audio':
                 ugs.Out.ar(0, x)
@@ -92,6 +95,48 @@ def build(cls, meth, args, subst=None):
             B.LAST_REC['c0'] = [u._special_index, B.RATE.get(u.rate, -1), [B.f32word(v) for v in u.values]]
             break
     return sd
+
+
+def accepted(cls, meth, args, i, rates):
+    """does the library emit bytes when argument i is the list of signals with these rates?"""
+    try:
+        sd = build(cls, meth, args, subst=(i, ('rates', rates)))
+        B.take_bytes(sd)
+        return True
+    except BaseException:
+        _main.main._current_synthdef = None
+        return False
+
+
+MIXES = (['a', 'k'], ['k', 'a'], ['a', 's'], ['s', 'a'], ['k', 's'], ['a', 'a', 'k'], ['k', 'k', 'a'])
+
+
+def rate_sweep(cls, name, meth, args, stats, ratebad):
+    """RATE rules, per class: every signal-like argument is given as a LIST of signals (audio, control,
+    constant).  Whatever the class's rule is, a list must be judged element by element: it is accepted
+    exactly when each of its elements alone is (multichannel expansion and spread lists alike)."""
+    for i, a in enumerate(args):
+        if a[0] not in ('sig', 'siglist'):
+            continue
+        single = {r_: accepted(cls, meth, args, i, [r_]) for r_ in ('a', 'k', 's')}
+        stats['rate-singletons'] = stats.get('rate-singletons', 0) + 3
+        if not any(single.values()):
+            continue                       # this argument does not take a list at all
+        for mix in MIXES:
+            stats['rate-mixes'] = stats.get('rate-mixes', 0) + 1
+            got = accepted(cls, meth, args, i, mix)
+            want = all(single[r_] for r_ in mix)
+            # only ACCEPTING a list that contains an element the class rejects on its own is against the property
+            # (Lag.ar([audio, 0.5]) is refused although Lag.ar([0.5]) returns the constant: stricter, not looser)
+            if got and not want:
+                names = {'a': 'audio', 'k': 'control', 's': 'constant'}
+                ratebad.append({
+                    'ctor': '%s.%s' % (name, meth), 'arg': a[1], 'mix': [names[r_] for r_ in mix], 'got': got,
+                    'single': {names[k_]: v for k_, v in single.items()},
+                    'checker': getattr(getattr(cls, '_check_inputs', None), '__qualname__', '?'),
+                    'python': '%s.%s with %s=[%s] (other arguments from the signature)' % (
+                        name, meth, a[1], ', '.join({'a': 'DC.ar(0.25)', 'k': 'DC.kr(0.25)', 's': '0.25'}[r_] for r_ in mix))})
+                break
 
 
 def verdict(sd, b):
@@ -118,6 +163,7 @@ def main():
     bad = []
     built = []
     failed = []
+    ratebad = []
     names = sorted(ugs.installed_ugens)
     for ci, name in enumerate(names):
         if ci % nshards != shard:
@@ -139,6 +185,11 @@ def main():
                     variants_.append([('sig', a[1]) if j < nsig and a[0] == 'val' else a for j, a in enumerate(args)])
             if args:
                 variants_.append([('siglist', args[0][1])] + list(args[1:]))
+            if meth in ('ar', 'kr'):
+                for first in list(variants_):
+                    for j in range(1, len(first)):
+                        if first[j][0] == 'val' and isinstance(first[j][2], (int, float)) and not isinstance(first[j][2], bool):
+                            variants_.append([('sig', a[1]) if q == j else a for q, a in enumerate(first)])
             for cand in variants_:
                 try:
                     B.LAST_REC.clear()
@@ -161,6 +212,8 @@ def main():
                 r = B.describe_sd(B.new_result(), sd, None, probe_cache=False)
                 r['ctor'] = '%s.%s' % (name, meth)
                 built.append(r)
+            if req.get('rates', True) and meth in ('ar', 'kr'):
+                rate_sweep(cls, name, meth, args, stats, ratebad)
             for i, a in enumerate(args):
                 if a[0] == 'val' and (isinstance(a[2], bool) or not isinstance(a[2], (int, float))):
                     continue
@@ -194,12 +247,13 @@ def main():
                         continue
                     call = '%s.%s(%s)' % (name, meth, ', '.join(
                         ('%s=%s' % (x[1], {'nan': "float('nan')", 'str': "'abc'", 'none': 'None'}[kind])) if j == i else
-                        ('%s=DC.%s(0.25)' % (x[1], meth) if x[0] == 'sig' else '%s=%r' % (x[1], x[2]))
+                        ('%s=DC.%s(0.25)' % (x[1], meth) if x[0] == 'sig' else
+                         '%s=[DC.%s(0.25), DC.%s(0.5)]' % (x[1], meth, meth) if x[0] == 'siglist' else '%s=%r' % (x[1], x[2]))
                         for j, x in enumerate(args)))
                     bad.append({'cls': name, 'meth': meth, 'arg': a[1], 'kind': kind, 'what': why, 'bytes': b.hex(),
                                 'checker': getattr(getattr(cls, '_check_inputs', None), '__qualname__', '?'),
                                 'python': "SynthDef('bs', lambda: %s).as_bytes()" % call})
-    json.dump({'stats': stats, 'bad': bad, 'built': built, 'failed': failed}, open(sys.argv[2], 'w'))
+    json.dump({'stats': stats, 'bad': bad, 'built': built, 'failed': failed, 'ratebad': ratebad}, open(sys.argv[2], 'w'))
 
 
 main()
